@@ -82,7 +82,7 @@ def recipes(ctx: Ctx):
         i += 1
     depth = 3 if ctx.thorough else 2
     for ops in K.exhaustive_histories(depth):
-        out.append((f"e{i}", {"ops": ops}))
+        out.append((f"e{i}", {"ops": ops, "cbs": ["both", "sync", "async"][i % 3]}))
         i += 1
     for nd in ([70, 130] if not ctx.thorough else [70, 130, 200, 300, 90, 150, 65, 100]):
         out.append((f"m{i}", {"ops": K.many_devices_history(ctx.rng, nd)}))
@@ -94,7 +94,7 @@ def recipes(ctx: Ctx):
             ops = chatty_history(ctx.rng, n)
         else:
             ops = K.rand_history(ctx.rng, n)
-        out.append((f"r{i}", {"ops": ops}))
+        out.append((f"r{i}", {"ops": ops, "cbs": ctx.rng.choice(["both", "both", "sync", "async"])}))
         i += 1
     return out
 
